@@ -28,10 +28,10 @@ ImportChoices == {<<>>}
 Init ==
   /\ step = 0
   /\ \E ir \in SeqsUpTo(RootItems, MaxR), bst \in {"-", "d"}, ax \in {<<>>, <<It("t", "static")>>, <<It("x", "static")>>},
-        xto \in {"t", "m"}, imps \in ImportChoices :
+        xto \in {"t", "m"}, aht \in {"-", "t"}, imps \in ImportChoices :
        w = [mods |-> [s \in Specs |->
                         IF s = "r" THEN [k |-> "mod", items |-> ir, st |-> "-"]
-                        ELSE IF s = "a" THEN [k |-> "mod", items |-> ax, st |-> "-"]
+                        ELSE IF s = "a" THEN [k |-> "mod", items |-> ax, st |-> "-", ht |-> aht]   \* typed module + types header
                         ELSE IF s = "b" THEN [k |-> "mod", items |-> <<>>, st |-> bst]
                         ELSE IF s = "m" THEN [k |-> "missing"]
                         ELSE IF s = "x" THEN [k |-> "redirect", to |-> xto]
